@@ -440,27 +440,27 @@ NOT_CLAIMED = {}
 PROPS = {
     "C01": dict(
         lean="AnyDB.Props.C01",
-        lean_extra=["AnyDB.Props.C01Run", "AnyDB.Props.C01Reopen", "AnyDB.Props.C01Total"],
+        lean_extra=["AnyDB.Props.C01Run", "AnyDB.Props.C01Reopen", "AnyDB.Props.C01Total", "AnyDB.Props.C01All"],
         runs=[
             Run("rawdb", "clean", [], (240, 50), (4000, 200), proj_c01, ["C01", "panic"], rawdb_features),
             Run("rawdb", "refusals", ["--malformed"], (80, 40), (1500, 120), proj_c01, ["C01", "panic"], rawdb_features),
         ],
         rule=RAWDB_RULE,
         assumptions=["page cache coherent with the shared mapping (no crash in this property)"],
-        level_text="Lean 4 REFINEMENT theorem over the executable model of rawdb, for every history (Props/C01Run.lean): the reference of the property is a list of named, independent byte vectors (refStep: create adds an empty vector, the three writes splice into one vector or are refused beyond its end, truncate cuts one, rename changes one name, remove drops one, retain drops those not kept, everything else changes nothing); C01_step: from ANY model state that shows a reference r and satisfies the invariant (C02's layout invariant + contents inside reservation and file), every request answered with a success or an API refusal leads to a state that shows refStep r op — name, length and every byte of every region, all four placement paths of write_with (fits / extend last / expand into adjacent hole / relocate with copy) reduced to one lemma because the extent AFTER the operation is apart from every other live region (linv_writeWith), hole punching hits only tails beyond ceil_page(len) and free extents; C01_run_partial lifts it by induction to every history from the empty database without reopen whose answers are successes or API refusals, and C01_history_partial weakens that hypothesis to the observable one — no request panics or answers RegionSizeOverflow — because under the invariant the internal error answers HoleTooSmall, OverlappingCopyRanges, RegionIndexMismatch, InvariantViolation cannot occur (Lemmas/RegionErrors.lean); C01_isolated: in the reference a request changes no entry but the one it names. Underneath: the byte-level laws of Props/C01.lean (read-own-write, frame, copy, growth, punching). Reopen (Props/C01Reopen.lean, Lemmas/RegionFile.lean): the invariant FInv — the regions metadata file agrees with the slot table: no image for a freed slot, the slot's metadata for every live slot that was written at least once — is preserved by every operation (C01_file_agrees), and C01_reopen_partial: after every such history ending in a state where every live region has held data or been renamed, dropping all handles and opening the directory again (any min_len) shows in every slot exactly the reference's name, length and bytes, and removed regions stay absent; Layout::from cannot panic there (reopen_ok). Panic-freedom is proved, so the hypotheses about the answers are discharged (Props/C01Total.lean, Lemmas/LayoutInFile*.lean, RegionNoPanic.lean, RegionGrowFine.lean, RegionFine.lean): C01_history — for EVERY history without reopen whose requests are well-formed (names passed to create/rename accepted by validate_id; in the reference no region grows beyond 2^39 bytes, where the doubled reservation would pass MAX_RESERVED_SIZE — both conditions on the request list alone, decidable, OKRun) no request panics, every answer is a success or a documented refusal, and the database shows exactly the reference; the proof needed the in-file invariant InF (every extent ends inside the data file and the cached file length equals the mapping size, preserved by every operation: inf_step), which makes write_to_mmap's bounds assertion, the copy slice, take_reserved and set_reserved unreachable, plus growReserved_lt / growReserved_some for the doubling loop; C01_reopen is the same across a reopen. Not proved in Lean: histories that continue after a reopen — validated by the lock-step correspondence: real crate = compiled model = independent reference byte vectors after every request, including reopen after flush.",
+        level_text="Lean 4 REFINEMENT theorem over the executable model of rawdb, for every history (Props/C01Run.lean): the reference of the property is a list of named, independent byte vectors (refStep: create adds an empty vector, the three writes splice into one vector or are refused beyond its end, truncate cuts one, rename changes one name, remove drops one, retain drops those not kept, everything else changes nothing); C01_step: from ANY model state that shows a reference r and satisfies the invariant (C02's layout invariant + contents inside reservation and file), every request answered with a success or an API refusal leads to a state that shows refStep r op — name, length and every byte of every region, all four placement paths of write_with (fits / extend last / expand into adjacent hole / relocate with copy) reduced to one lemma because the extent AFTER the operation is apart from every other live region (linv_writeWith), hole punching hits only tails beyond ceil_page(len) and free extents; C01_run_partial lifts it by induction to every history from the empty database without reopen whose answers are successes or API refusals, and C01_history_partial weakens that hypothesis to the observable one — no request panics or answers RegionSizeOverflow — because under the invariant the internal error answers HoleTooSmall, OverlappingCopyRanges, RegionIndexMismatch, InvariantViolation cannot occur (Lemmas/RegionErrors.lean); C01_isolated: in the reference a request changes no entry but the one it names. Underneath: the byte-level laws of Props/C01.lean (read-own-write, frame, copy, growth, punching). Reopen (Props/C01Reopen.lean, Lemmas/RegionFile.lean): the invariant FInv — the regions metadata file agrees with the slot table: no image for a freed slot, the slot's metadata for every live slot that was written at least once — is preserved by every operation (C01_file_agrees), and C01_reopen_partial: after every such history ending in a state where every live region has held data or been renamed, dropping all handles and opening the directory again (any min_len) shows in every slot exactly the reference's name, length and bytes, and removed regions stay absent; Layout::from cannot panic there (reopen_ok). Panic-freedom is proved, so the hypotheses about the answers are discharged (Props/C01Total.lean, Lemmas/LayoutInFile*.lean, RegionNoPanic.lean, RegionGrowFine.lean, RegionFine.lean): C01_history — for EVERY history without reopen whose requests are well-formed (names passed to create/rename accepted by validate_id; in the reference no region grows beyond 2^39 bytes, where the doubled reservation would pass MAX_RESERVED_SIZE — both conditions on the request list alone, decidable, OKRun) no request panics, every answer is a success or a documented refusal, and the database shows exactly the reference; the proof needed the in-file invariant InF (every extent ends inside the data file and the cached file length equals the mapping size, preserved by every operation: inf_step), which makes write_to_mmap's bounds assertion, the copy slice, take_reserved and set_reserved unreachable, plus growReserved_lt / growReserved_some for the doubling loop; C01_reopen is the same across a reopen. Reopen at ANY point, any number of times (Props/C01All.lean, Lemmas/ReopenState/ReopenInv/ReopenRel/RefPad.lean): C01_history_all — for every well-formed history in which a reopen happens only when every live region has been written at least once (the property promises survival exactly for those), no request panics and after the history every slot shows exactly what the reference shows (trailing free slots do not count: after a reopen the slot table is as long as the metadata file); every invariant holds again in the state Database::open rebuilds (reopen_inv: the holes of Layout::from start at the origin or at the end of a region and end where a region starts), the reopened database shows what it showed (rel_reopen), and the reference step commutes with padding by free slots (refStep_pad).",
         level_note="Trusted: Lean kernel + {propext, Classical.choice, Quot.sound}; the hand-written model Model/Rawdb.lean (tied to /repo by the differential run and tools/extract.py); harness/driver glue; OS page cache coherent with the mapping. Modelled rather than verified: all of rawdb (no Rust line is verified directly).",
         technique="Lean 4 proof over an executable model of rawdb + lock-step correspondence with the real crate and a reference byte-vector oracle",
     ),
     "C02": dict(
         lean="AnyDB.Props.C02",
-        lean_extra=["AnyDB.Props.C02Run", "AnyDB.Props.C01Reopen", "AnyDB.Props.C01Total"],
+        lean_extra=["AnyDB.Props.C02Run", "AnyDB.Props.C01Reopen", "AnyDB.Props.C01Total", "AnyDB.Props.C01All"],
         runs=[
             Run("rawdb", "layout", [], (240, 60), (4000, 250), proj_c02, ["C02", "panic"], rawdb_features),
             Run("rawdb", "refusals", ["--malformed"], (80, 40), (1500, 120), proj_c02, ["C02", "panic"], rawdb_features),
         ],
         rule=RAWDB_RULE,
         assumptions=["Layout accessors pending_holes/start_to_reserved exposed by the verif_hooks feature (read-only)"],
-        level_text="Lean 4 theorems, unbounded in list length and sizes, for the allocator: promotion of deferred holes keeps the free list positive, pairwise disjoint and merged, covers exactly old free bytes + promoted bytes and stays disjoint from everything the inputs were disjoint from (C02_promote); hole split (C02_split); best fit (C02_best_fit); placement reuses free space and does not grow the file whenever an adequate hole exists, for relocation and for creation (C02_place_reuses, C02_place_end, C02_create_reuses); the file growth rule (C02_growth); flush leaves no deferred hole (C02_flush_promotes). The whole-database invariant over complete histories is proved too (Props/C02Run.lean, Lemmas/Layout*.lean, AllocCnt.lean): LInv — no byte of the file in two extents (region reservations, relocation targets, holes, pending holes), all extents positive, start map = slots — is preserved by EVERY operation of the model from ANY state satisfying it (metadata/data-only operations keep the layout view; remove/retain; flush with promotion and merging; compact; the three growing paths of write_with incl. is_last_anything ⇒ nothing claimed behind, and relocation with its reservation; create), hence C02_history_partial: after every sequence of operations from the empty database without a panicking operation and without reopen, no byte belongs to two extents, everything claimed ends at or before Layout::len, and two live regions never share a byte. The accounting half is proved over the same histories (Lemmas/LayoutAcc.lean, C02_history_accounted): the claimed bytes always form an initial segment — every operation either leaves the number of extents covering each byte unchanged or adds one extent exactly on top of everything claimed (creation / relocation at Layout::len, the last region growing in place) — so every byte below Layout::len belongs to EXACTLY one region, reservation, free extent or pending free extent; with C01_run_inv every region's contents fit its reservation. Page alignment is a whole-history theorem too (Lemmas/LayoutAlign.lean, C02_history_aligned: every extent starts on a page boundary and is a whole number of pages long, and so is Layout::len). Reopen (Props/C01Reopen.lean, Lemmas/LayoutReopen.lean, C02_reopen_partial): at the end of any such history in which every live region has been written at least once, Database::open does not panic in Layout::from (the regions collected by start form a chain because live regions are pairwise apart) and the rebuilt layout has no byte in two extents, positive extents, a start map that agrees with the slots, and every byte below its end in exactly one region or free extent (the holes are exactly the gaps). 'Inside the data file' is a whole-history invariant too (Lemmas/LayoutInFile*.lean, inf_step: every extent ends at or before the size of the mapping, which equals the cached file length), and the no-panic hypothesis of all the above is discharged in Props/C01Total.lean: C02_history — after EVERY well-formed history without reopen (valid names; no region beyond 2^39 bytes in the reference; conditions on the requests only) the state satisfies the disjointness invariant, contents-inside-reservation, exact accounting, page alignment, in-file and metadata-file agreement, and no request panicked. Open: histories that continue after a reopen — checked by the harness's extent checker on the real crate after every request.",
+        level_text="Lean 4 theorems, unbounded in list length and sizes, for the allocator: promotion of deferred holes keeps the free list positive, pairwise disjoint and merged, covers exactly old free bytes + promoted bytes and stays disjoint from everything the inputs were disjoint from (C02_promote); hole split (C02_split); best fit (C02_best_fit); placement reuses free space and does not grow the file whenever an adequate hole exists, for relocation and for creation (C02_place_reuses, C02_place_end, C02_create_reuses); the file growth rule (C02_growth); flush leaves no deferred hole (C02_flush_promotes). The whole-database invariant over complete histories is proved too (Props/C02Run.lean, Lemmas/Layout*.lean, AllocCnt.lean): LInv — no byte of the file in two extents (region reservations, relocation targets, holes, pending holes), all extents positive, start map = slots — is preserved by EVERY operation of the model from ANY state satisfying it (metadata/data-only operations keep the layout view; remove/retain; flush with promotion and merging; compact; the three growing paths of write_with incl. is_last_anything ⇒ nothing claimed behind, and relocation with its reservation; create), hence C02_history_partial: after every sequence of operations from the empty database without a panicking operation and without reopen, no byte belongs to two extents, everything claimed ends at or before Layout::len, and two live regions never share a byte. The accounting half is proved over the same histories (Lemmas/LayoutAcc.lean, C02_history_accounted): the claimed bytes always form an initial segment — every operation either leaves the number of extents covering each byte unchanged or adds one extent exactly on top of everything claimed (creation / relocation at Layout::len, the last region growing in place) — so every byte below Layout::len belongs to EXACTLY one region, reservation, free extent or pending free extent; with C01_run_inv every region's contents fit its reservation. Page alignment is a whole-history theorem too (Lemmas/LayoutAlign.lean, C02_history_aligned: every extent starts on a page boundary and is a whole number of pages long, and so is Layout::len). Reopen (Props/C01Reopen.lean, Lemmas/LayoutReopen.lean, C02_reopen_partial): at the end of any such history in which every live region has been written at least once, Database::open does not panic in Layout::from (the regions collected by start form a chain because live regions are pairwise apart) and the rebuilt layout has no byte in two extents, positive extents, a start map that agrees with the slots, and every byte below its end in exactly one region or free extent (the holes are exactly the gaps). 'Inside the data file' is a whole-history invariant too (Lemmas/LayoutInFile*.lean, inf_step: every extent ends at or before the size of the mapping, which equals the cached file length), and the no-panic hypothesis of all the above is discharged in Props/C01Total.lean: C02_history — after EVERY well-formed history without reopen (valid names; no region beyond 2^39 bytes in the reference; conditions on the requests only) the state satisfies the disjointness invariant, contents-inside-reservation, exact accounting, page alignment, in-file and metadata-file agreement, and no request panicked. Reopen at any point, any number of times: C02_history_all (Props/C01All.lean) — the same five invariants after every well-formed history with reopens (each in a state where every live region has been written at least once); the layout Database::open rebuilds is disjoint, fully accounted, page-aligned and inside the file (reopen_inv).",
         level_note="Trusted: Lean kernel + standard axioms; hand-written model (Model/Rawdb.lean) tied to /repo by differential run + extractor; the guarded read-only Layout accessors. Modelled rather than verified: layout.rs, region.rs write_with, lib.rs create/set_min_len/flush.",
         technique="Lean 4 proof of allocator invariants (induction over the pending-hole list) + full-layout lock-step correspondence + independent invariant checker on the real layout",
     ),
